@@ -1,9 +1,9 @@
 SPECIFICATION Spec
 CONSTANTS
-  Formats = {"amf0", "aac", "ws", "ocspreq"}
+  Formats = {"amf0", "aac", "ws", "rtmpchunk", "jweforge", "ocspreq"}
   SeedCap = 2
   MaxMut = 2
-  Ops1 = {"trunc", "set", "dup", "drop", "splice", "nest", "field", "tlv", "random"}
+  Ops1 = {"trunc", "set", "dup", "drop", "splice", "nest", "field", "tlv", "random", "restate", "forge"}
   Ops2 = {"trunc", "drop", "tlv"}
   NestDepths = {1, 2}
   SpliceWindow = 8
@@ -13,6 +13,8 @@ CONSTANTS
   SpliceOther = TRUE
   RandLens = {0, 1, 7}
   NRand = 2
+  InnerNodeIdx = {0, 2}
+  ForgeAlgs = {"dir"}
   NodeIdx = {0, 3}
   ByteOpsAllSeeds = FALSE
   PanicOnForbidden = FALSE
